@@ -56,6 +56,7 @@ type event struct {
 	state  xmpp.SessionState
 	outLen int // bytes the library had written when the call was made
 	stream int // advertisement index at the time
+	strm   int // stream (header) index at the time: several advertisements may arrive on one stream
 	err    bool
 }
 
@@ -64,6 +65,7 @@ type world struct {
 	events  []event
 	conn    *sess.Reactive
 	adIndex int // index of the current advertisement
+	strmNo  int // index of the current stream
 }
 
 func (w *world) feature(a arch) xmpp.StreamFeature {
@@ -92,7 +94,7 @@ func (w *world) feature(a arch) xmpp.StreamFeature {
 				// loop does not terminate; abort this execution
 				panic(fmt.Sprintf("c01: negotiation does not terminate (%d Negotiate calls)", len(w.events)))
 			}
-			w.events = append(w.events, event{kind: "negotiate", ns: a.ns, state: s.State(), outLen: len(w.conn.Written()), stream: w.adIndex, err: a.fail})
+			w.events = append(w.events, event{kind: "negotiate", ns: a.ns, state: s.State(), outLen: len(w.conn.Written()), stream: w.adIndex, strm: w.strmNo, err: a.fail})
 			if w.recv {
 				// consume the selection (bare element or iq-wrapped)
 				r := s.TokenReader()
@@ -260,6 +262,13 @@ func initiatorBody(maxK, maxStreams int, twice bool) nd.Body {
 			}
 			ads = append(ads, ad)
 			w.adIndex = len(ads) - 1
+			if len(ads) > 1 && !strings.Contains(written, "<stream:stream") && !strings.Contains(written, "<open") {
+				// the library went on reading without restarting the stream (a
+				// required feature that neither restarts nor completes the session
+				// was negotiated): the next list arrives on the same stream
+				return renderAd(ad), nil
+			}
+			w.strmNo++
 			return header(ws, ns, location.String(), origin.String()) + renderAd(ad), nil
 		})
 		var s *xmpp.Session
@@ -313,11 +322,11 @@ func initiatorBody(maxK, maxStreams int, twice bool) nd.Body {
 			if !advertised && !forcedTLS {
 				return fail("not-advertised", "%s negotiated but advertisement %d is %v", a.name, e.stream, ad)
 			}
-			if negotiated[e.stream] == nil {
-				negotiated[e.stream] = map[string]bool{}
+			if negotiated[e.strm] == nil {
+				negotiated[e.strm] = map[string]bool{}
 			}
-			if negotiated[e.stream][e.ns] {
-				return fail("negotiated-twice", "%s negotiated twice on stream %d", a.name, e.stream)
+			if negotiated[e.strm][e.ns] {
+				return fail("negotiated-twice", "%s negotiated twice on stream %d (advertisement %d)", a.name, e.strm, e.stream)
 			}
 			// voluntary before mandatory: when a feature the peer requires is
 			// taken, no eligible un-negotiated voluntary feature of that list remains
@@ -330,16 +339,16 @@ func initiatorBody(maxK, maxStreams int, twice bool) nd.Body {
 							isReq = true
 						}
 					}
-					if ok && !isReq && b.negotiable && it.ns != e.ns && !negotiated[e.stream][it.ns] && eligible(b, e.state) && !forcedTLS {
+					if ok && !isReq && b.negotiable && it.ns != e.ns && !negotiated[e.strm][it.ns] && eligible(b, e.state) && !forcedTLS {
 						return fail("mandatory-before-voluntary", "%s (required) negotiated while voluntary %s was still eligible on stream %d", a.name, b.name, e.stream)
 					}
 				}
 			}
-			negotiated[e.stream][e.ns] = true
+			negotiated[e.strm][e.ns] = true
 			// a restart begins with a fresh stream header
 			if a.restart && !a.fail {
 				rest := out[e.outLen:]
-				if i+1 < len(w.events) && w.events[i+1].stream == e.stream {
+				if i+1 < len(w.events) && w.events[i+1].strm == e.strm {
 					return fail("no-restart-after-restarting-feature", "%s restarts the stream but %s was negotiated on the same stream", a.name, w.events[i+1].ns)
 				}
 				if rest != "" && !strings.HasPrefix(rest, "<?xml") && !strings.HasPrefix(rest, "<open") && !strings.HasPrefix(rest, "<stream:stream") {
@@ -369,7 +378,7 @@ func initiatorBody(maxK, maxStreams int, twice bool) nd.Body {
 				last := len(ads) - 1
 				for _, it := range ads[last] {
 					a, ok := byNS(cfg, it.ns)
-					if ok && it.required && a.negotiable && !negotiated[last][it.ns] && eligible(a, fin&^xmpp.Ready) {
+					if ok && it.required && a.negotiable && !negotiated[w.strmNo][it.ns] && eligible(a, fin&^xmpp.Ready) {
 						sig := "established-with-pending-mandatory"
 						if n := len(w.events); n > 0 {
 							if l, _ := byNS(cfg, w.events[n-1].ns); l.mask&xmpp.Ready != 0 {
